@@ -34,7 +34,10 @@ RULE = ('cases from one PRNG: (00) "build": ROADM chains whose multiband element
         '(typed with all member amplifiers in library or reversed order, typed with a partial list, typed without '
         'amplifiers, untyped and left to the auto-design; 5 stock multiband varieties; design bands listed C,L or L,C): '
         'params.bands, the first band of every amplifier and the amplifier keys after network_from_json and again after the '
-        'design vs loadMultiband / designMultiband; (0) "grid": create_input_spectral_information on uniform grids of 0-76 channels whose f_max '
+        'design vs loadMultiband / designMultiband; (01) "reuse": ONE PathRequest propagated on 2-3 '
+        'paths in succession (request.propagate called repeatedly, propagate_and_optimize_mode, and a bidirectional '
+        'service through compute_path_dsjctn / compute_path_with_disjunction with fixed or automatic mode) on chains whose two '
+        'directions carry amplifiers of different bands; (0) "grid": create_input_spectral_information on uniform grids of 0-76 channels whose f_max '
         'sits on / just before / just after a grid step, baud rate below, at and above the spacing; (a) "ctor": 1-12 (thorough: up to 60) carriers with integer-Hz frequencies, mixed baud/slot, '
         'slots touching, gaps, and with probability ~1/3 a defect (same frequency twice, overlapping slots, baud > slot), '
         'supplied in random order, through both constructors; (b) "bands": a valid spectrum against 1-4 random bands '
@@ -78,6 +81,8 @@ def gen(rng, tier, widen=False):
         return gen_grid(rng)
     if k < 0.09:
         return gen_build(rng)
+    if k < 0.12:
+        return gen_reuse(rng)
     if k < 0.30:
         return gen_ctor(rng, tier)
     if k < 0.45:
@@ -146,6 +151,25 @@ def gen_build(rng):
         var = rng.choice(list(MB))
         hops.append([[rng.choice(BUILD_KINDS), var] for _ in range(rng.choice([2, 3, 4]))])
     return {'kind': 'build', 'hops': hops, 'design_bands_l_first': rng.random() < 0.5}
+
+
+def gen_reuse(rng):
+    """ONE request object propagated on several paths in succession (both directions of a bidirectional service, or any
+    caller that reuses a request) on a chain whose two directions have different common amplifier ranges"""
+    nh = rng.choice([1, 1, 2])
+    hops = []
+    for _ in range(nh):
+        e, w = rng.sample(SINGLE[:4], 2)
+        east, west = ['ed', e], ['ed', w]
+        if rng.random() < 0.3:
+            east = ['mb', rng.choice(list(MB))]
+        elif rng.random() < 0.2:
+            west = ['mb', rng.choice(list(MB))]
+        hops.append({'amp': east, 'amp_w': west, 'namp': 2})
+    how = rng.choice(['propagate', 'propagate', 'bidir_fixed', 'bidir_auto', 'optimize'])
+    return {'kind': 'reuse', 'hops': hops, 'how': how, 'order': rng.sample(['ez', 'ze', 'ez2'], rng.choice([2, 3])),
+            'grid': rng.random() < 0.5 or how != 'propagate', 'spacing': rng.choice([50_000_000_000, 75_000_000_000]),
+            'nch': rng.choice([6, 12]), 'cseed': rng.getrandbits(32)}
 
 
 def gen_bands(rng, tier):
@@ -388,7 +412,7 @@ def _check_built(res, si, car, where):
 # ---------------------------------------------------------------------------------------------------------------------
 
 def run(case, drv):
-    return {'build': run_build, 'grid': run_grid, 'ctor': run_ctor, 'bands': run_bands, 'common': run_common, 'path': run_path, 'call': run_call,
+    return {'reuse': run_reuse, 'build': run_build, 'grid': run_grid, 'ctor': run_ctor, 'bands': run_bands, 'common': run_common, 'path': run_path, 'call': run_call,
             'malformed': run_malformed}[case['kind']](case, drv)
 
 
@@ -547,6 +571,126 @@ def run_build(case, drv):
     res.stats.update({'build': 1, 'build_multiband_elements': len(mbs), 'build_elements_not_wf_before_design': not_wf_pre})
     for kind, _, _ in spec.values():
         res.stats['build_' + kind] += 1
+    return res
+
+
+def check_propagations(res, drv, calls, launched, sid, what):
+    """every propagation recorded in `calls` (a segment from a source Transceiver call to the next Transceiver call): the
+    spectrum that enters the first element is exactly the launched channels that fit every amplifier of THAT path,
+    whatever was propagated before; every element returns the channel list it was given"""
+    segs, cur = [], []
+    for c in calls:
+        cur.append(c)
+        if c.kind == 'Transceiver' and len(cur) > 1:
+            segs.append(cur)
+            cur = []
+    if cur:
+        segs.append(cur)
+    for si_, seg in enumerate(segs):
+        if seg[0].before is None or any(c.after is None for c in seg):
+            continue
+        abands = _amp_bands([c.el for c in seg])
+        amps = [ab for ab in abands if ab[0] != 'other']
+        first = S.snapshot_pairs(seg[0].before) if hasattr(S, 'snapshot_pairs') else \
+            [(int(f), int(s)) for f, s in zip(seg[0].before['freq'], seg[0].before['slot'])]
+        slot0 = first[0][1] if first else None
+        lch = launched(seg)          # [(f, slot)] launched for this propagation
+        if amps:
+            keep = [c for c in lch if all(any(_inside(c[0], c[1], b) for b in ab[1]) for ab in amps)]
+        else:
+            keep = [c for c in lch if _inside(c[0], c[1], (int(sid.f_min), int(sid.f_max)))]
+        where = f'{what}, propagation {si_ + 1} of {len(segs)} with the same request ({seg[0].uid} -> {seg[-1].uid})'
+        if first != sorted(keep):
+            lost = sorted(set(keep) - set(first))
+            extra = sorted(set(first) - set(keep))
+            res.fail(f'filter-history: {where}: {len(first)} channels enter the first element, {len(keep)} launched channels fit '
+                     f'every amplifier of this path (not launched {[c[0] for c in lost[:3]]}, not removed '
+                     f'{[c[0] for c in extra[:3]]})', propagation=si_ + 1)
+        ans = drv.ask('c07.propagate', path=[_elem_json(ab) for ab in abands], fmin=int(sid.f_min), fmax=int(sid.f_max),
+                      spacing=int(sid.spacing), chans=[[c[0], c[1], min(c[1], 1), i] for i, c in enumerate(lch)])
+        res.cmp_exact('request.propagate.channels(reused request)',
+                      {'ok': first} if first else {'err': 'ValueError'},
+                      {'ok': [(r[0], r[1]) for r in ans['ok']]} if 'ok' in ans else ans, propagation=si_ + 1)
+        for ci, c in enumerate(seg):
+            b = [(int(f), int(s)) for f, s in zip(c.before['freq'], c.before['slot'])]
+            a = [(int(f), int(s)) for f, s in zip(c.after['freq'], c.after['slot'])]
+            if a != b:
+                res.fail(f'element-changed-channels: {where}: {c.kind} {c.uid!r} received {len(b)} channels and returned {len(a)}',
+                         element=c.kind)
+                break
+    return len(segs)
+
+
+def run_reuse(case, drv):
+    from gnpy.topology.request import propagate, propagate_and_optimize_mode, compute_constrained_path, \
+        compute_path_dsjctn, compute_path_with_disjunction
+    from gnpy.topology.spectrum_assignment import build_oms_list
+    from gnpy.tools.json_io import requests_from_json
+    res = Result()
+    eq, net = chain_net(case['hops'])
+    n = len(case['hops'])
+    a, z = 'trx 0', f'trx {n}'
+    sid = eq['SI']['default']
+    how = case['how']
+    err = None
+    if how in ('bidir_fixed', 'bidir_auto', 'optimize'):
+        data = {'path-request': [{'request-id': 'r', 'source': a, 'destination': z, 'src-tp-id': a, 'dst-tp-id': z,
+                                  'bidirectional': how != 'optimize',
+                                  'path-constraints': {'te-bandwidth': {
+                                      'technology': 'flexi-grid', 'trx_type': 'Voyager',
+                                      'trx_mode': 'mode 1' if how == 'bidir_fixed' else None,
+                                      'spacing': float(case['spacing']), 'path_bandwidth': 100e9}}}]}
+        rqs = requests_from_json(data, eq)
+        req = rqs[0]
+
+        def launched(seg):
+            sp = int(req.spacing)
+            return [(int(req.f_min) + i * sp, sp) for i in range(1, (int(req.f_max) - int(req.f_min)) // sp + 1)]
+    else:
+        path0, req = S.path_request(eq, net, a, z)
+        if case['grid']:
+            req.f_min, req.f_max, req.spacing = 190_900_000_000_000.0, 196_400_000_000_000.0, float(case['spacing'])
+
+            def launched(seg):
+                sp = int(req.spacing)
+                return [(int(req.f_min) + i * sp, sp) for i in range(1, (int(req.f_max) - int(req.f_min)) // sp + 1)]
+        else:
+            car = _carriers(_random.Random(case['cseed']), [WIDE[1]], case['nch'])
+            _, req = S.path_request(eq, net, a, z, car)
+
+            def launched(seg):
+                return [(int(c['f']), int(c['slot'])) for c in car]
+    try:
+        with S.Recorder(keep_op_events=False) as rec:
+            if how in ('bidir_fixed', 'bidir_auto'):
+                build_oms_list(net, eq)
+                req.nodes_list, req.loose_list = [z], ['STRICT']
+                pths = compute_path_dsjctn(net, eq, rqs, [])
+                compute_path_with_disjunction(net, eq, rqs, pths)
+            else:
+                for o in case['order']:
+                    s, d = (a, z) if o.startswith('ez') else (z, a)
+                    req.source, req.destination, req.nodes_list, req.loose_list = s, d, [d], ['STRICT']
+                    path = compute_constrained_path(net, req)
+                    amps = [ab for ab in _amp_bands(path) if ab[0] != 'other']
+                    fits = [c for c in launched(None) if all(any(_inside(c[0], c[1], b) for b in ab[1]) for ab in amps)]
+                    try:
+                        if how == 'optimize':
+                            propagate_and_optimize_mode(path, req, eq)
+                        else:
+                            propagate(path, req, eq)
+                    except ValueError:
+                        if fits:        # "Defined propagation band does not match amplifiers band" is right only when
+                            raise       # no launched channel fits the amplifiers of THIS path
+                        res.stats['reuse_no_channel_fits'] += 1
+    except Exception as e:
+        err = e
+    nprop = check_propagations(res, drv, [c for c in rec.calls], launched, sid, how)
+    if err is not None:
+        res.fail(f'reuse-exception: {how} with one request on paths of different amplifier ranges raised {err_kind(err)}: '
+                 f'{str(err)[:120]}')
+    res.nontrivial = nprop >= 2
+    res.stats.update({'reuse': 1, 'reuse_' + how: 1, 'reuse_propagations': nprop})
     return res
 
 
